@@ -302,11 +302,17 @@ class Report:
 
 
 def pool_map(fn, items, workers: int | None = None, chunksize: int = 1):
-    """Process-pool map (fork) used to run the real code in parallel."""
+    """Process-pool map (fork) used to run the real code in parallel.  A worker that dies (the real code can abort the
+    process, e.g. GNU MP on an absurd precision) must not hang the check: it is a machinery failure with a message."""
+    import concurrent.futures as cf
     import multiprocessing as mp
-    ctx = mp.get_context('fork')
-    with ctx.Pool(workers or NCPU) as pool:
-        return pool.map(fn, items, chunksize)
+    from concurrent.futures.process import BrokenProcessPool
+    items = list(items)
+    try:
+        with cf.ProcessPoolExecutor(max_workers=workers or NCPU, mp_context=mp.get_context('fork')) as ex:
+            return list(ex.map(fn, items, chunksize=chunksize))
+    except BrokenProcessPool as e:
+        raise MachineryError(f'a worker process died while running the real code ({e}); see stderr above for the cause') from e
 
 
 def replay_saved(prop: str, trace_module: str, path: str, rerun=None) -> int:
